@@ -353,7 +353,7 @@ impl Prop for C12 {
          timeout {150 ms (quick); 150, 400 ms (thorough)} x retries {0, 1 (quick); 0, 1, 2}; plus, for TCP, half a reply followed by silence on an open connection; eco over HTTP (accept-then-hold, \
          refused) and the master server (silent). The loopback servers are driven by the same reference models. Oracle: the \
          outcome class equals the outcome of the deterministic twin run under the virtual network with the same silence point \
-         (which also yields N = number of receives that time out); the call returns within N x timeout + 1.5 s (hard watchdog at \
+         ; the call returns within N x timeout + 1.5 s, where N is read off the FAULT-FREE exchange (its natural timeouts + one that may end a greedy list + retries + 1 for the unit that meets the silence), not off the implementation's behaviour under the fault; over UDP the server must receive no more than (requests before the silence + retries x requests an attempt sends before its first receive) datagrams (hard watchdog at \
          4x: 'never times out'); every datagram the server received equals a request the twin run sent. Data path: UdpSocket / \
          TcpSocket echo for payload sizes {0..64, 1023, 1024, 1025, 1472, 1473, 2048, 6144, 65507} x receive sizes {payload-1, \
          payload, payload+1, default} x {v4, v6}. A timing failure is re-run three times serially before it is reported. \
@@ -377,13 +377,55 @@ impl Prop for C12 {
                 // deterministic twin
                 let call = e.call.clone();
                 let twin = run_query((server_for(e.family))(), Box::new(SilentAfter { k, delivered: 0 }), Chooser::new(&[]), || call(IP4, PORT, ts_variant(ms, retries, variant)));
-                let n_timeouts = twin.log.iter().filter(|x| matches!(x, WireEvent::Recv { data: None, .. })).count();
+                let twin_timeouts = twin.log.iter().filter(|x| matches!(x, WireEvent::Recv { data: None, .. })).count();
                 let twin_class = match &twin.outcome {
                     Outcome::Ok(_) => "ok".to_string(),
                     Outcome::Err(kd, _) => format!("err:{kd:?}"),
                     other => other.class(),
                 };
                 let twin_sends: Vec<Vec<u8>> = twin.log.iter().filter_map(|x| if let WireEvent::Send { bytes, .. } = x { Some(bytes.clone()) } else { None }).collect();
+                // Reference bounds that do NOT come from the implementation's retry behaviour: they are read off the
+                // fault-free exchange. nat = receives that time out even when the server answers everything
+                // (Unreal 2 ends its lists with one); a_u = requests an attempt of the silent unit sends before its
+                // first receive; sends_before = requests sent before the receive that meets the silence.
+                let call2 = e.call.clone();
+                let free = run_query((server_for(e.family))(), Box::new(crate::vnet::Faithful), Chooser::new(&[]), || call2(IP4, PORT, ts(ms, retries)));
+                let nat_total = free.log.iter().filter(|x| matches!(x, WireEvent::Recv { data: None, .. })).count();
+                let total_replies = free.log.iter().filter(|x| matches!(x, WireEvent::Recv { data: Some(_), .. })).count();
+                let fam10 = e.family;
+                let (mut sends_before, mut got, mut a_u) = (0usize, 0usize, 1usize);
+                {
+                    let mut sends_in_attempt = 0usize;
+                    let mut seen_recv_in_attempt = false;
+                    for ev in &free.log {
+                        match ev {
+                            WireEvent::Send { bytes, .. } => {
+                                if super::c10::starts_attempt(fam10, bytes) {
+                                    sends_in_attempt = 0;
+                                    seen_recv_in_attempt = false;
+                                }
+                                if !seen_recv_in_attempt {
+                                    sends_in_attempt += 1;
+                                }
+                                sends_before += 1;
+                            }
+                            WireEvent::Recv { data: Some(_), .. } => {
+                                if got == k {
+                                    break;
+                                }
+                                got += 1;
+                                seen_recv_in_attempt = true;
+                            }
+                            _ => {}
+                        }
+                        a_u = sends_in_attempt.max(1);
+                    }
+                }
+                let silent_before_end = k < total_replies;
+                // at most: the natural timeouts, one that ends a greedy list early, and r+1 for the unit that meets silence
+                let n_timeouts = if silent_before_end { nat_total + 1 + retries + 1 } else { nat_total };
+                let expected_requests = if silent_before_end { sends_before + retries * a_u } else { twin_sends.len() };
+                let _ = twin_timeouts;
                 let bound = Duration::from_millis(ms) * n_timeouts as u32 + SLACK;
                 let mut last: Option<(String, String)> = None;
                 for attempt in 0 .. 3 {
@@ -406,6 +448,8 @@ impl Prop for C12 {
                                 Some((format!("error-class:{}", if v6 { "ipv6" } else { "ipv4" }), format!("outcome {got}, twin run under the virtual network: {twin_class}")))
                             } else if elapsed > bound {
                                 Some(("too-slow".into(), format!("took {elapsed:?}, bound {bound:?} = {n_timeouts} x {ms} ms + slack")))
+                            } else if !e.tcp && e.family != Family::Unreal2 && silent_before_end && recvd.len() > expected_requests {
+                                Some(("too-many-requests".into(), format!("the server received {} requests; {} requests before the silence + {retries} retries x {a_u} = {expected_requests} expected", recvd.len(), sends_before)))
                             } else if !e.tcp && recvd.iter().any(|d| !twin_sends.contains(d)) {
                                 Some(("request-corrupted".into(), format!("server received a datagram the client did not send: {:?}", recvd.iter().find(|d| !twin_sends.contains(d)).map(|d| crate::vnet::hex(d)))))
                             } else {
@@ -438,14 +482,8 @@ impl Prop for C12 {
             What::Special { entry, kind, v6, ms, retries } => {
                 let e = entries()[entry].clone();
                 let ip = loop_ip(v6);
-                // a port with nothing behind it: bind, read the number, close
-                let port = if kind == 0 {
-                    let Ok(l) = TcpListener::bind((ip, 0)) else { ctx.violation("MACHINERY:loopback-unavailable", &[], format!("cannot bind {ip}"), "", "", vec![]); return; };
-                    l.local_addr().unwrap().port()
-                } else {
-                    let Ok(s) = StdUdp::bind((ip, 0)) else { ctx.violation("MACHINERY:loopback-unavailable", &[], format!("cannot bind {ip}"), "", "", vec![]); return; };
-                    s.local_addr().unwrap().port()
-                };
+                // a port with nothing behind it (outside the ephemeral range, see common::closed_port)
+                let Some(port) = super::common::closed_port(ip, kind == 0) else { ctx.violation("MACHINERY:loopback-unavailable", &[], format!("no closed port on {ip}"), "", "", vec![]); return; };
                 let call = e.call.clone();
                 let t = ts(ms, retries);
                 let bound = Duration::from_millis(ms) * (retries as u32 + 1) + SLACK;
@@ -537,8 +575,8 @@ impl Prop for C12 {
                     let Some(s) = spawn_tcp(ip, Arc::new(|| Box::new(crate::vnet::Silent)), 0) else { return };
                     (s.port, Some(s))
                 } else {
-                    let Ok(l) = TcpListener::bind((ip, 0)) else { return };
-                    (l.local_addr().unwrap().port(), None)
+                    let Some(p) = super::common::closed_port(ip, true) else { return };
+                    (p, None)
                 };
                 let t = ts(ms, 0);
                 let bound = Duration::from_millis(ms) * 2 + SLACK;
